@@ -115,6 +115,10 @@ func shapeEnv(kind string) bool { return kind == "struct" || kind == "ptr" || ki
 // the ways of supplying type information).  strict: both fail or both return
 // equal values (C02).  Otherwise (C15): all variants that succeed agree.
 func (r *replayer) pairCase(c Case, strict bool) {
+	if !strict && !r.probed {
+		r.probed = true
+		r.layoutProbe()
+	}
 	lg := &Log{}
 	progs := make([]struct {
 		m  Mode
@@ -207,6 +211,41 @@ func (r *replayer) pairCase(c Case, strict bool) {
 					}
 					r.fail(Failure{Why: "differ-" + why, Src: c.Src, Mode: ms[a].String(), Mode2: ms[b].String(), Env: rc.Env,
 						Budget: rc.Budget, Exp: &exp, Got: &ga, Got2: &gb, DevMatch: dm})
+				}
+			}
+		}
+	}
+	// C02: the short conditional `c ?: b` (the parser puts ONE node in two places, condition and first branch): a
+	// boolean expression under it behaves the same optimized and not, and as the expression itself
+	if strict && c.Ty == "bool" && !c.Cdz && !c.Cbp {
+		src2 := "(" + c.Src + ") ?: false"
+		for _, env := range []string{"struct"} {
+			mo, mn := Mode{Env: env, Optimize: true}, Mode{Env: env}
+			po, cgo := CompileMode(src2, mo)
+			pn, cgn := CompileMode(src2, mn)
+			if cgo != nil || cgn != nil {
+				if (cgo == nil) != (cgn == nil) {
+					g := cgo
+					if g == nil {
+						g = cgn
+					}
+					r.fail(Failure{Why: "short-conditional-compiles-one-way", Src: src2, Mode: mo.String(), Mode2: mn.String(), Got: g})
+				}
+				continue
+			}
+			for i := range c.Runs {
+				rc := c.Runs[i]
+				e, err := BuildEnv(rc.Env, lg)
+				if err != nil {
+					continue
+				}
+				ga := RunMode(src2, po, mo, e, lg)
+				gb := RunMode(src2, pn, mn, e, lg)
+				r.sum.Executions += 2
+				if ok, why := sameGot(ga, gb); !ok {
+					exp := rc.Exp
+					r.fail(Failure{Why: "short-conditional-differ-" + why, Src: src2, Mode: mo.String(), Mode2: mn.String(), Env: rc.Env,
+						Exp: &exp, Got: &ga, Got2: &gb, DevMatch: devMatches(ga, rc.Dev, false)})
 				}
 			}
 		}
